@@ -27,8 +27,14 @@ def gen_case(rng, name):
         style = "positive"
     c = gen.dm_case(rng, nmax=8, mmax=5, nmin=3, mmin=1, positive=(style == "positive"),
                     modes=("dyadic", "int", "float", "tiny123") if style == "positive" else
-                    ("dyadic", "int", "float", "tiny012"), structure=False, big=0.0)
+                    ("dyadic", "int", "float", "tiny012"), structure=False, big=0.0, int_dtypes=0.4)
     n, m = len(c["matrix"]), len(c["weights"])
+    if style == "positive" and name not in T.IMPUTERS and rng.random() < 0.12:
+        # an all-integer matrix whose values no float can hold (nanosecond timestamps, amounts in cents)
+        base = 2 ** 53 + 1
+        c["matrix"] = [[base + 2 * rng.randint(0, 10 ** 6) + 2 * (i + n * j) for j in range(m)] for i in range(n)]
+        c["dtypes"] = ["int64"] * m
+        c["mode"] = "int_beyond_2^53"
     if style == "positive" or name in ("CRITIC", "Critic", "StdWeighter", "CenitDistanceMatrixScaler"):
         # no constant criterion
         for j in range(m):
@@ -57,6 +63,11 @@ def gen_case(rng, name):
             observed = sum(1 for i2 in range(n) if (i2, j) not in nan and i2 != i)
             if observed >= 2:
                 nan.append((i, j))
+        if rng.random() < 0.12 and m >= 2:
+            # a wholly missing criterion: the imputer may refuse, but it may not return another set of criteria
+            j = rng.randrange(m)
+            nan = [x for x in nan if x[1] != j] + [(i, j) for i in range(n)]
+            c["whole_criterion_missing"] = j
         c["nan"] = [list(x) for x in nan]
     c["tf"] = cfg
     return c
@@ -171,7 +182,9 @@ def run(ctx):
         if "error" in o:
             ctx.count("raised:" + name)
             ctx.case_seen(c, False)
-            if not (name in T.FILTERS and c["tf"].get("ignore_missing") is False):
+            if "whole_criterion_missing" in c:
+                ctx.count("refused:wholly_missing_criterion")
+            elif not (name in T.FILTERS and c["tf"].get("ignore_missing") is False):
                 ctx.disagree(c, {"what": "transformer raised on an in-domain matrix", "exc": o["exc"]})
             continue
         ch = changed_parts(o)
